@@ -26,7 +26,7 @@ IR (all tuples, picklable, hashable):
    ('make', type, args, line)                         std::make_shared<type>(args)
    ('new', type, args, line)
    ('cast', kind, type, e)      kind in dynamic/static/reinterpret/const ; C-style & implicit casts are dropped
-   ('sizeof', type) ('lambda', params, body) ('list', elems) ('default',) ('unk', kind)
+   ('sizeof', type) ('lambda', params, body, paramtypes) ('widen', '64<-32', type, e) ('cond', c, a, b, type) ('list', elems) ('default',) ('unk', kind)
 """
 import hashlib
 import json
@@ -41,7 +41,7 @@ REPO = os.environ.get("VERIF_REPO", "/repo")
 VERIF = os.path.dirname(os.path.dirname(os.path.abspath(__file__)))
 CACHE = os.environ.get("VERIF_CACHE", os.path.join(VERIF, ".cache"))
 STUBS = os.path.join(VERIF, "stubs")
-FRONTEND_VERSION = "cxx-19"
+FRONTEND_VERSION = "cxx-20"
 
 CLANG = "clang++"
 
@@ -620,6 +620,12 @@ class Lower:
                 wt, wf = int_width(n.get("type")), int_width(inner[0].get("type"))
                 if wt and wf and wt < wf and inner[0].get("kind") not in ("IntegerLiteral", "CharacterLiteral", "CXXBoolLiteralExpr", "UnaryOperator") and not _is_const_expr(inner[0]):
                     return ("narrow", "%d<-%d" % (wt, wf), clean_type(_qt(n)), self.expr(inner[0]))
+                # arithmetic carried out in 32 bits (or less) and only then widened to 64: the sum/product has already wrapped
+                core = inner[0]
+                while core.get("kind") == "ParenExpr" and core.get("inner"):
+                    core = core["inner"][0]
+                if wt == 64 and wf and wf <= 32 and core.get("kind") == "BinaryOperator" and core.get("opcode") in ("+", "-", "*", "<<") and not _is_const_expr(core):
+                    return ("widen", "%d<-%d" % (wt, wf), clean_type(_qt(core)), self.expr(inner[0]))
             return self.expr(inner[0])
         if k == "SubstNonTypeTemplateParmExpr":
             real = [c for c in inner if c.get("kind") and not c["kind"].endswith("Decl")]
@@ -688,7 +694,7 @@ class Lower:
                 return a
             return ("un", op, a)
         if k == "ConditionalOperator":
-            return ("cond", self.expr(inner[0]), self.expr(inner[1]), self.expr(inner[2]))
+            return ("cond", self.expr(inner[0]), self.expr(inner[1]), self.expr(inner[2]), clean_type(_qt(n)))
         if k == "CXXThrowExpr":
             real = [c for c in inner if c.get("kind")]
             return ("throw", self.expr(real[0]) if real else None)
@@ -791,7 +797,8 @@ class Lower:
                     for m in c.get("inner", []):
                         if m.get("kind") == "CXXMethodDecl" and m.get("name") == "operator()":
                             params = tuple(p.get("name", "") for p in m.get("inner", []) if p.get("kind") == "ParmVarDecl")
-            return ("lambda", params, self.block(body) if body else ())
+                            ptypes = tuple(clean_type(_qt(p)) for p in m.get("inner", []) if p.get("kind") == "ParmVarDecl")
+            return ("lambda", params, self.block(body) if body else (), ptypes if params else ())
         if k == "UnaryExprOrTypeTraitExpr":
             at = n.get("argType", {}).get("qualType")
             if at is None and inner:
